@@ -118,4 +118,11 @@ SentryObligations(m, utc, e, seenIds) ==
           (r[1] \notin KeysOf(m.attrs)) =>
               LET box == CASE r[2] = "tags" -> e.tags [] r[2] = "os" -> e.os [] r[2] = "device" -> e.device
               IN  ~Has(box, r[3])
+
+\* sentry.h (beyond the listed properties): where the events go.  A DSN https://<key>@<host>/<project> - or the three
+\* parts given separately, or found in the environment - names the store endpoint of that project; the events are
+\* sent as JSON.  Strings are TLA+ strings here (the parts are plain ASCII identifiers).
+SentryUrl(host, project, key) == "https://" \o host \o "/api/" \o project \o "/store/?sentry_version=7&sentry_key=" \o key
+SentryDsn(host, project, key) == "https://" \o key \o "@" \o host \o "/" \o project
+SentryContentType == "application/json; charset=utf-8"
 =============================================================================
